@@ -10,6 +10,7 @@ import (
 	"net"
 	"net/http"
 	"os"
+	"slices"
 	"strings"
 	"syscall"
 
@@ -344,9 +345,16 @@ func evalCase(cs Case) (class, msg string) {
 // served by its original handler, nothing else must be registered and a new write must complete.
 var managedSteps = []string{"Update /a", "Update /a/b", "Update /a/c", "Handle /a/d", "Delete /a/c", "Handle /a/{x}", "Truncate GET", "Truncate GET,POST", "Truncate"}
 
-func evalManagedSeq(seq []int) (string, string) {
+// managedSeeds: the route sets the sequences start from. The larger ones give the node "/a/" three and five
+// children registered one at a time (an edge slice that grew by doubling has spare capacity, so a write that adds a
+// sibling in the middle shows whether it reorders the published slice).
+var managedSeeds = [][]string{{"/a", "/a/b", "/a/c"}, {"/a", "/a/b", "/a/c", "/a/e"}, {"/a", "/a/b", "/a/c", "/a/e", "/a/f", "/a/g"}}
+
+var managedProbes = []string{"/a", "/a/b", "/a/c", "/a/d", "/a/e", "/a/f", "/a/g", "/a/zz"}
+
+func evalManagedSeq(seed int, seq []int) (string, string) {
 	f, _ := fox.New()
-	for _, p := range []string{"/a", "/a/b", "/a/c"} {
+	for _, p := range managedSeeds[seed] {
 		f.MustHandle("GET", p, fx.VerHandler(1), fx.WithVer(1))
 	}
 	type boom struct{}
@@ -354,7 +362,7 @@ func evalManagedSeq(seq []int) (string, string) {
 	for _, i := range seq {
 		names = append(names, managedSteps[i])
 	}
-	desc := fmt.Sprintf("Updates performing [%s] and then panicking, on {GET /a, /a/b, /a/c}", strings.Join(names, "; "))
+	desc := fmt.Sprintf("Updates performing [%s] and then panicking, on GET %v", strings.Join(names, "; "), managedSeeds[seed])
 	var escaped any
 	func() {
 		defer func() { escaped = recover() }()
@@ -386,7 +394,7 @@ func evalManagedSeq(seq []int) (string, string) {
 	var got []string
 	func() {
 		defer func() { after = recover() }()
-		for _, p := range []string{"/a", "/a/b", "/a/c", "/a/d", "/a/zz"} {
+		for _, p := range managedProbes {
 			rw := fx.NewRW()
 			f.ServeHTTP(rw, fx.Req("GET", "", p))
 			got = append(got, fmt.Sprintf("%s=%d/v%s", p, rw.Code, rw.H.Get("V")))
@@ -396,7 +404,15 @@ func evalManagedSeq(seq []int) (string, string) {
 		}
 		got = append(got, fmt.Sprintf("len=%d", f.Len()))
 	}()
-	want := "/a=200/v1 route/a=v1 /a/b=200/v1 route/a/b=v1 /a/c=200/v1 route/a/c=v1 /a/d=404/v /a/zz=404/v len=3"
+	var wants []string
+	for _, p := range managedProbes {
+		if slices.Contains(managedSeeds[seed], p) {
+			wants = append(wants, fmt.Sprintf("%s=200/v1 route%s=v1", p, p))
+		} else {
+			wants = append(wants, p+"=404/v")
+		}
+	}
+	want := strings.Join(wants, " ") + fmt.Sprintf(" len=%d", len(managedSeeds[seed]))
 	if after != nil || strings.Join(got, " ") != want {
 		return "routes-changed", fmt.Sprintf("after the panic the router answers [%s] (panic %v), want [%s]: %s", strings.Join(got, " "), after, want, desc)
 	}
@@ -535,12 +551,14 @@ func run(c *mc.Ctx, r *mc.Result) {
 			}
 		}
 		gen(nil)
-		for _, sq := range seqs {
-			class, msg := evalManagedSeq(sq)
-			r.Evaluations++
-			r.DistinctNontrivial++
-			if class != "" {
-				r.Violate("faults", class, msg, map[string]any{"managed_seq": sq})
+		for seed := range managedSeeds {
+			for _, sq := range seqs {
+				class, msg := evalManagedSeq(seed, sq)
+				r.Evaluations++
+				r.DistinctNontrivial++
+				if class != "" {
+					r.Violate("faults", class, msg, map[string]any{"managed_seq": sq, "seed": seed})
+				}
 			}
 		}
 		for _, view := range []bool{false, true} {
@@ -798,7 +816,8 @@ func init() {
 				for _, x := range sq {
 					seq = append(seq, int(x.(float64)))
 				}
-				_, msg := evalManagedSeq(seq)
+				seed, _ := probe["seed"].(float64)
+				_, msg := evalManagedSeq(int(seed), seq)
 				return msg
 			}
 			if probe["managed"] == true {
